@@ -100,6 +100,88 @@ def moment_functionals(e, fam, dim):
     return fun
 
 
+def trace_table(e, tr):
+    """facet parametrisations, keys and reversal pairs for the trace table of a scalar H1 element
+    (triangles, quadrilaterals, tetrahedra); None if the element makes no continuity claim"""
+    rd = e.refdom
+    if rd.__name__ not in ("RefTri", "RefQuad", "RefTet") or int(e.nodal_dofs) == 0:
+        return None
+    dim = tr["dim"]
+    P_ = [[Fraction(float(v)) for v in rd.p[:, j]] for j in range(rd.p.shape[1])]
+    ents = []
+    for v in range(rd.nnodes):
+        ents += [("v", v, a) for a in range(int(e.nodal_dofs))]
+    if dim == 3:
+        for ed in range(rd.nedges):
+            ents += [("e", ed, a) for a in range(int(e.edge_dofs))]
+    for f in range(rd.nfacets):
+        ents += [("f", f, a) for a in range(int(e.facet_dofs))]
+    ents += [("i", 0, a) for a in range(int(e.interior_dofs))]
+    if len(ents) != tr["nb"]:
+        return None
+    keyid = {}
+    fmaps, keys = [], []
+    for f, F in enumerate(rd.facets):
+        F = list(F)
+        origin = P_[F[0]]
+        dirs = [[P_[F[k]][i] - origin[i] for i in range(dim)] for k in range(1, len(F))]
+        fmaps.append((origin, dirs))
+        row = []
+        for (kind, ent, a) in ents:
+            k = None
+            if kind == "v" and ent in F:
+                k = ("v", a, F.index(ent))
+            elif kind == "e":
+                u, w = rd.edges[ent]
+                if u in F and w in F:
+                    k = ("e", a, tuple(sorted((F.index(u), F.index(w)))))
+            elif kind == "f" and ent == f:
+                k = ("f", a)
+            row.append(None if k is None else keyid.setdefault(k, len(keyid)))
+        keys.append(row)
+    pairs = []
+    if rd.__name__ == "RefQuad" and int(e.facet_dofs) <= 1:
+        for k, i in keyid.items():
+            if k[0] == "v" and k[2] == 0 and ("v", k[1], 1) in keyid:
+                pairs.append((i, keyid[("v", k[1], 1)]))
+            if k[0] == "f":
+                pairs.append((i, i))
+    return {"fmaps": fmaps, "keys": keys, "pairs": pairs}
+
+
+def py_trace_check(tr, tt):
+    """the trace-table statement evaluated in Python (exact)"""
+    from ..exact import compose
+    dim = tr["dim"]
+    tol = Fraction(1, 2 ** TOL_EXP)
+
+    def close(p, q):
+        ks = set(p.t) | set(q.t)
+        return all(abs(p.t.get(k, 0) - q.t.get(k, 0)) <= tol for k in ks)
+    first = {}
+    traces = {}
+    for f, (origin, dirs) in enumerate(tt["fmaps"]):
+        m = len(dirs)
+        G = [P.const(origin[i], m) + sum((P.var(k, m) * dirs[k][i] for k in range(m)), P(m)) for i in range(dim)]
+        for i, v in enumerate(tr["vals"]):
+            t = compose(v, G)
+            traces[(f, i)] = t
+            k = tt["keys"][f][i]
+            if k is None:
+                if not close(t, P(m)):
+                    return False
+            else:
+                if k in first and not close(t, first[k]):
+                    return False
+                first.setdefault(k, t)
+    for (k1, k2) in tt["pairs"]:
+        p, q = first[k1], first[k2]
+        rev = compose(p, [P.const(1, 1) - P.var(0, 1)])
+        if not close(rev, q):
+            return False
+    return True
+
+
 def py_checks(tr, e, name):
     """evaluate, in Python, the same checks the Lean file will state; returns dict of outcomes"""
     dim, fam, vals, ders = tr["dim"], tr["family"], tr["vals"], tr["ders"]
@@ -123,6 +205,9 @@ def py_checks(tr, e, name):
             for i in nod:
                 s = s + vals[i]
             res["pou"] = close(s, P.const(1, dim))
+        tt = trace_table(e, tr)
+        if tt is not None:
+            res["traces"] = py_trace_check(tr, tt)
     elif all(not is_scalar(v) and len(v) == dim and all(is_scalar(c) for c in v) for v in vals):
         if fam == "hdiv" and all(d is not None and is_scalar(d) for d in ders):
             res["div"] = all(close(sum((vals[i][a].deriv(a) for a in range(dim)), zero), ders[i])
@@ -176,8 +261,12 @@ def generate(update_expect=False):
     F = ["import SkfemVerif.Gen.Shapes", "/-",
          "GENERATED by harness/skv/gens/shapes.py: kernel-checked facts about the traced shape functions",
          "(`decide +kernel`, no axioms) -- do not edit.", "-/", "namespace Skv.Gen.Shapes", "open Skv", ""]
+    T = ["import SkfemVerif.Gen.Shapes", "/-",
+         "GENERATED by harness/skv/gens/shapes.py: kernel-checked TRACE TABLES of the conforming H1 elements",
+         "(restriction of every traced shape function to every reference facet) -- do not edit.", "-/",
+         "namespace Skv.Gen.Shapes", "open Skv", ""]
     report = {"traced": [], "untraceable": {}, "facts": {}, "unexpected": []}
-    h1_list, div_list, curl2_list, curl3_list, deg_list = [], [], [], [], []
+    h1_list, div_list, curl2_list, curl3_list, deg_list, trace_list, rev_list = [], [], [], [], [], [], []
     expoly.SnapLog.worst = Fraction(0)
     for kind, lst in elements.pool().items():
         for name, fac in lst:
@@ -250,6 +339,27 @@ def generate(update_expect=False):
                 F.append(f"theorem {ln}_pou_ok : checkPou {dim} {ln}_vals [{', '.join(map(str, nod))}] shapeTol = true "
                          ":= by decide +kernel")
                 facts.append("pou")
+            if expect[name].get("traces"):
+                tt = trace_table(e, tr)
+                fm = ", ".join("([%s], [%s])" % (", ".join(q_lean(v) for v in o),
+                                                 ", ".join("[" + ", ".join(q_lean(v) for v in d) + "]" for d in ds))
+                               for (o, ds) in tt["fmaps"])
+                ky = ", ".join("[" + ", ".join("none" if k is None else f"some {k}" for k in row) + "]"
+                               for row in tt["keys"])
+                D.append(f"def {ln}_fmaps : List (List Rat × List (List Rat)) := [{fm}]")
+                D.append(f"def {ln}_keys : List (List (Option Nat)) := [{ky}]")
+                T.append(f"theorem {ln}_traces_ok : checkTraceTable {ln}_vals {ln}_fmaps {ln}_keys shapeTol = true := by "
+                         "decide +kernel")
+                T.append(f"theorem {ln}_keys_ok : checkKeys {ln}_keys = true := by decide +kernel")
+                facts.append("traces")
+                trace_list.append(ln)
+                if tt["pairs"]:
+                    pr = ", ".join(f"({a}, {b})" for a, b in tt["pairs"])
+                    T.append(f"theorem {ln}_reversal_ok : checkTraceReversal {ln}_vals {ln}_fmaps {ln}_keys [{pr}] "
+                             "shapeTol = true := by decide +kernel")
+                    D.append(f"def {ln}_pairs : List (Nat × Nat) := [{pr}]")
+                    rev_list.append(ln)
+                    facts.append("reversal")
             if expect[name].get("moments"):
                 fun = moment_functionals(e, tr["family"], dim)
                 fl = ", ".join("([%s], [%s], %s)" % (", ".join(q_lean(v) for v in c), ", ".join(q_lean(v) for v in d),
@@ -259,7 +369,7 @@ def generate(update_expect=False):
                          "decide +kernel")
                 facts.append("moments")
             for k, v in outcomes.items():
-                if k in ("dual", "pou", "moments", "deg") and v and not expect[name].get(k):
+                if k in ("dual", "pou", "moments", "deg", "traces") and v and not expect[name].get(k):
                     report["unexpected"].append((name, k, "holds now but not in the frozen expectation"))
             report["facts"][name] = facts
             F.append("")
@@ -287,6 +397,34 @@ def generate(update_expect=False):
     if curl3_list:
         table("hcurl3Elements", curl3_list, "({n}_vals, {n}_ders)", "List (List Poly) × List (List Poly)",
               "checkCurl3 E.1 E.2 shapeTol", "curl_ok")
+    def table_to(Fl, defname, names, tuple_fmt, ty, check, factname):
+        D.append(f"def {defname} : List ({ty}) := [" + ", ".join(tuple_fmt.format(n=n) for n in names) + "]\n")
+        Fl.append(f"theorem {defname}_ok : ∀ E ∈ {defname}, {check} = true := by")
+        Fl.append("  intro E hE")
+        Fl.append(f"  simp only [{defname}, List.mem_cons, List.not_mem_nil, or_false] at hE")
+        if len(names) > 1:
+            Fl.append("  rcases hE with " + " | ".join(["h"] * len(names)))
+            for n in names:
+                Fl.append(f"  · subst h; exact {n}_{factname}")
+        else:
+            Fl.append(f"  subst hE; exact {names[0]}_{factname}")
+        Fl.append("")
+    if trace_list:
+        table_to(T, "traceElements", trace_list, "({n}_vals, {n}_fmaps, {n}_keys)",
+                 "List Poly × List (List Rat × List (List Rat)) × List (List (Option Nat))",
+                 "checkTraceTable E.1 E.2.1 E.2.2 shapeTol", "traces_ok")
+    if trace_list:
+        T.append("theorem traceElements_keys_ok : ∀ E ∈ traceElements, checkKeys E.2.2 = true := by")
+        T.append("  intro E hE")
+        T.append("  simp only [traceElements, List.mem_cons, List.not_mem_nil, or_false] at hE")
+        T.append("  rcases hE with " + " | ".join(["h"] * len(trace_list)))
+        for n in trace_list:
+            T.append(f"  · subst h; exact {n}_keys_ok")
+        T.append("")
+    if rev_list:
+        table_to(T, "reversalElements", rev_list, "({n}_vals, {n}_fmaps, {n}_keys, {n}_pairs)",
+                 "List Poly × List (List Rat × List (List Rat)) × List (List (Option Nat)) × List (Nat × Nat)",
+                 "checkTraceReversal E.1 E.2.1 E.2.2.1 E.2.2.2 shapeTol", "reversal_ok")
     if deg_list:
         D.append("def degElements : List (List Poly × Nat) := [" +
                  ", ".join(f"({n}_vals, {d})" for n, d in deg_list) + "]\n")
@@ -299,13 +437,15 @@ def generate(update_expect=False):
         F.append("")
     D.append("end Skv.Gen.Shapes")
     F.append("end Skv.Gen.Shapes")
+    T.append("end Skv.Gen.Shapes")
     report["snap_worst"] = float(expoly.SnapLog.worst)
     if update_expect or not EXPECT.exists():
         EXPECT.write_text(json.dumps(expect, indent=1, sort_keys=True) + "\n")
     c1 = write_if_changed(LEAN / "SkfemVerif" / "Gen" / "Shapes.lean", "\n".join(D) + "\n")
     c2 = write_if_changed(LEAN / "SkfemVerif" / "Gen" / "ShapeFacts.lean", "\n".join(F) + "\n")
+    c3 = write_if_changed(LEAN / "SkfemVerif" / "Gen" / "TraceFacts.lean", "\n".join(T) + "\n")
     generate.report = report
-    return c1 or c2
+    return c1 or c2 or c3
 
 
 generate.report = {}
